@@ -208,6 +208,13 @@ func uint64Alphabet() []uint64 {
 		set[i], set[^i] = true, true
 	}
 
+	// unstructured values: four per fixed 256-bit integer
+	for _, v := range alpha.Fixed(128, "uint64") {
+		for _, l := range ref.Limbs(v) {
+			set[l] = true
+		}
+	}
+
 	out := make([]uint64, 0, len(set))
 	for v := range set {
 		out = append(out, v)
